@@ -22,18 +22,28 @@ def run(ctx):
     R = Report("C11", ctx.tier, "proof", "lock-state dataflow over MIR + interprocedural acquisition summaries")
     F = ctx.facts()
     CG = ctx.cg()
+    return rules(R, F, CG, own=True)
+
+
+def rules(R, F, CG, own=False):
+    """the lock-discipline obligations, recorded into R (C11's own report, or another property's that depends on them)"""
     LM = LockModel(F, CG)
-    R.explanation = (
+    if not own:
+        R_say = R.say
+        R.say = lambda s_: None
+    if own:
+      R.explanation = (
         "LOCK rules over the resolved program: every call site of the lock wrapper's accessor methods is an "
         "acquisition (lock identified by the field/static it is reached through); a forward may-dataflow gives the "
         "guards held at every call; acquisition summaries are propagated over the call graph (closures, fn pointers, "
         "trait impls, callback edges of foreign generics). Obligations: per (call site x held lock): no re-entry, "
         "order edges acyclic; per coroutine: no guard type among the locals saved across an await; per raw "
         "std lock call: inside the wrapper only.")
-    R.trusted = ["rustc name resolution/type check/MIR (A1)", "call-graph closure rules (A2)",
-                 "extern summaries: std::sync::RwLock is not re-entrant and may prefer writers (A3)"]
-    R.assumptions = ["one BRC20ProgEngine instance per process (locks identified by field path)",
-                     "dependencies take no lock of this crate (they cannot name them)"]
+    if own:
+        R.trusted = ["rustc name resolution/type check/MIR (A1)", "call-graph closure rules (A2)",
+                     "extern summaries: std::sync::RwLock is not re-entrant and may prefer writers (A3)"]
+        R.assumptions = ["one BRC20ProgEngine instance per process (locks identified by field path)",
+                         "dependencies take no lock of this crate (they cannot name them)"]
 
     locks = sorted({s["lock"] for s in LM.sites})
     R.say("C11: wrapper types: %s" % ", ".join(a["name"] for a in LM.wrappers.values()))
@@ -138,6 +148,8 @@ def run(ctx):
                             "LOCK-3|%s|yield" % f.name, "await while holding %s" % sorted({g[1] for g in held[bi]}))
     R.floor("coroutines", n_cor, 100)
     R.samples.append({"rule": "LOCK-3", "coroutines_checked": n_cor})
+    if not own:
+        R.say = R_say
     return R
 
 
